@@ -674,6 +674,14 @@ fn run_values<M: TsMod>(c: &mut Ctx, n: usize, special: &[(i64, u32)]) {
     }
 }
 
+// ---- known findings (known_findings.json F20, F21, F22): the what-strings are matched there, verbatim ----
+/// F20: the RFC 3339 writer rounds a sub-minute offset to whole minutes and keeps the wall clock
+const F_A: &str = "zone-aware round trip changes the instant for a sub-minute offset";
+/// F21: the wall-clock date lies outside NaiveDate::MIN..=MAX; written (F06 repaired) but refused on reading
+const F_B: &str = "serialized zone-aware value near the range end is not readable";
+/// F22: nanosecond field >= 10^9 on a second other than :59 prints as the following second
+const F_C: &str = "leap-second representation on a second other than :59 does not round-trip";
+
 // ---- string forms: implementation only ----------------------------------------------------------------
 fn via_json<T: Serialize, U: for<'a> Deserialize<'a>>(v: &T) -> Result<Result<U, String>, ()> {
     guard(|| {
@@ -754,7 +762,13 @@ fn run_zoned(c: &mut Ctx, n: usize, special: &[(i64, u32)]) {
                 c.fail("DateTime<Utc> read as DateTime<FixedOffset> is not the same instant at +00:00", &format!("{:?} -> {:?}", u, a));
             }
         } else {
-            c.count("observed:leap-on-other-second-utc");
+            // only this class may be excused as F22: nanosecond field >= 10^9 on a second other than :59
+            let a = via_json::<_, DateTime<Utc>>(&u);
+            match &a {
+                Ok(Ok(x)) if x.naive_utc() == nd => c.count("leap-on-other-second:utc:kept"),
+                Ok(_) => c.fail(F_C, &format!("DateTime<Utc> {:?} -> {:?}", u, a)),
+                Err(()) => c.fail("DateTime<Utc> round trip panics", &format!("{:?}", u)),
+            }
         }
         // fixed-offset source through both formats into the three targets
         let sj = guard(|| serde_json::to_string(&z));
@@ -770,6 +784,38 @@ fn run_zoned(c: &mut Ctx, n: usize, special: &[(i64, u32)]) {
         };
         if i < 8 {
             c.sample(&format!("DateTime<FixedOffset> {:?} -> {}", z, sj));
+        }
+        // correspondence with the composed writer / reader models (Model/SerdeStr.lean)
+        let text = sj.trim_matches('"').to_string();
+        c.op(&format!("sd.dt.ser {} {off}", show_ndt(&nd)), &hex(text.as_bytes()));
+        let shown = |r: Result<Result<DateTime<FixedOffset>, serde_json::Error>, ()>| match r {
+            Ok(Ok(x)) => format!("ok {} {}", show_ndt(&x.naive_utc()), x.offset().local_minus_utc()),
+            Ok(Err(_)) => "err".to_string(),
+            Err(()) => "panic".to_string(),
+        };
+        let mut texts = vec![text.clone()];
+        if i % 4 == 0 && !text.is_empty() {
+            // a single edit of the text: the reader's acceptance is compared as well
+            let mut b = text.clone().into_bytes();
+            let k = c.rng.below(b.len() as u64) as usize;
+            match c.rng.below(6) {
+                0 => {
+                    b.remove(k);
+                }
+                1 => b.insert(k, *c.rng.pick(b"0159 :-+TZtz.")),
+                2 => b[k] = *c.rng.pick(b"0123456789:-+ TZtz."),
+                3 => b = String::from_utf8(b).unwrap().replace('T', " ").into_bytes(),
+                4 => b = String::from_utf8(b).unwrap().to_lowercase().into_bytes(),
+                _ => b.extend_from_slice(*c.rng.pick(&[&b" "[..], &b"Z"[..], &b"+00"[..], &b" UTC"[..], &b"x"[..]])),
+            }
+            texts.push(String::from_utf8(b).unwrap());
+        }
+        for t in &texts {
+            let q = serde_json::to_string(t).unwrap();
+            let rf = guard(|| serde_json::from_str::<DateTime<FixedOffset>>(&q));
+            c.op(&format!("sd.dt.de fixed {}", hex(t.as_bytes())), &shown(rf));
+            let ru = guard(|| serde_json::from_str::<DateTime<Utc>>(&q).map(|x| x.fixed_offset()));
+            c.op(&format!("sd.dt.de utc {}", hex(t.as_bytes())), &shown(ru));
         }
         let tf = guard(|| serde_json::from_str::<DateTime<FixedOffset>>(&sj).map_err(|e| e.to_string()));
         let tu = guard(|| serde_json::from_str::<DateTime<Utc>>(&sj).map_err(|e| e.to_string()));
@@ -814,27 +860,35 @@ fn run_zoned(c: &mut Ctx, n: usize, special: &[(i64, u32)]) {
             }
             "offset-with-seconds" => {
                 // The writer rounds the offset to whole minutes and keeps the wall clock, so the instant moves
-                // by the rounding error (FINDING A, reported to the lead; pinned by chrono's own test
+                // by the rounding error (known finding F20; pinned by chrono's own test
                 // `test_serde_serialize`).  What must still hold: readable, wall clock kept, offset = rounded.
                 // (the magnitude is rounded half up, the sign kept; ±23:59:30 and beyond print as ±24:00,
                 // which the reader refuses)
                 let rounded = off.signum() * ((off.abs() + 30) / 60 * 60);
                 match &tf {
                     Ok(x) if x.naive_local() == z.naive_local() && x.offset().local_minus_utc() == rounded => {
-                        if x.naive_utc() == nd {
-                            c.count("finding-A:offset-with-seconds:instant-kept");
+                        let moved = (inst_ns(&x.naive_utc()) - inst_ns(&nd)).abs();
+                        if moved == 0 {
+                            c.count("offset-with-seconds:instant-kept");
+                        } else if moved < 60_000_000_000 {
+                            // F20, and nothing else: offset not a whole minute, wall clock and rounded offset
+                            // kept, instant off by less than a minute
+                            c.fail(F_A, &format!("{:?} at offset {off} s -> {sj} -> {:?} (instant moved by {} s)", nd, x, (off - rounded)));
                         } else {
-                            c.count("finding-A:offset-with-seconds:instant-moved");
-                            if c.rng.chance(1, 64) {
-                                c.sample(&format!("finding A: {:?} at offset {off} s -> {sj} -> {:?} (instant moved by {} s)", nd, x, (x.naive_utc() - nd).num_seconds()));
-                            }
+                            c.fail("zone-aware value with a sub-minute offset comes back a minute or more away", &format!("{:?} ({sj}) -> {:?}", z, x));
                         }
                     }
-                    // at a range end the moved instant can fall outside the range: refused (also finding A)
-                    Err(_) if rounded.abs() == 86_400 => c.count("finding-A:offset-with-seconds:printed-as-24:00-unreadable"),
-                    Err(_) if wall - (rounded as i128) < ts_min() || wall - (rounded as i128) > ts_max() => {
-                        c.count("finding-A:offset-with-seconds:moved-outside-range-unreadable")
-                    }
+                    // two further consequences of the same rounding, with their own what-strings:
+                    // an offset of ±23:59:30 or more is written as ±24:00, which the reader refuses
+                    Err(_) if rounded.abs() == 86_400 => c.fail(
+                        "zone-aware value with an offset beyond 23:59:30 is written with offset 24:00 and is not readable",
+                        &format!("{:?} at offset {off} s -> {sj} -> {:?}", nd, tf),
+                    ),
+                    // at a range end the moved instant falls outside the representable range and is refused
+                    Err(_) if wall - (rounded as i128) < ts_min() || wall - (rounded as i128) > ts_max() => c.fail(
+                        "zone-aware value with a sub-minute offset next to the range end is not readable",
+                        &format!("{:?} at offset {off} s -> {sj} -> {:?}", nd, tf),
+                    ),
                     other => c.fail(
                         "DateTime<FixedOffset> with a seconds offset: wall clock or rounded offset not kept",
                         &format!("{:?} ({sj}) -> {:?}", z, other),
@@ -843,23 +897,21 @@ fn run_zoned(c: &mut Ctx, n: usize, special: &[(i64, u32)]) {
             }
             "wall-clock-outside-range" => {
                 // serializing returned normally (F06); reading the text back is refused because the wall
-                // clock date is outside NaiveDate's range (FINDING B, reported to the lead)
+                // clock date is outside NaiveDate's range (known finding F21)
                 match &tf {
-                    Err(_) => c.count("finding-B:wall-clock-outside-range:unreadable"),
-                    Ok(x) if x.naive_utc() == nd => c.count("finding-B:wall-clock-outside-range:readable"),
+                    // F21, and nothing else: the wall-clock date is outside NaiveDate::MIN..=MAX and the text is refused
+                    Err(_) => c.fail(F_B, &format!("{:?} at offset {off} s -> {sj} -> {:?}", nd, tf)),
+                    Ok(x) if x.naive_utc() == nd => c.count("wall-clock-outside-range:readable"),
                     other => c.fail("value near the range end comes back as a different instant", &format!("{:?} ({sj}) -> {:?}", z, other)),
-                }
-                if c.rng.chance(1, 16) {
-                    c.sample(&format!("finding B: {:?} at offset {off} s -> {sj} -> {:?}", nd, tf));
                 }
             }
             _ => {
-                // OBSERVATION C: a leap-second representation on a second other than :59 prints as the next
+                // known finding F22: a leap-second representation on a second other than :59 prints as the next
                 // second and is read back as that non-leap second
+                // (F22: the UTC time or the wall-clock time has nanosecond >= 10^9 on a second other than :59)
                 match &tf {
-                    Ok(x) if x.naive_utc() == nd => c.count("observed:leap-on-other-second:kept"),
-                    Ok(_) => c.count("observed:leap-on-other-second:read-as-next-second"),
-                    Err(_) => c.count("observed:leap-on-other-second:unreadable"),
+                    Ok(x) if x.naive_utc() == nd => c.count("leap-on-other-second:zoned:kept"),
+                    other => c.fail(F_C, &format!("DateTime<FixedOffset> {:?} ({sj}) -> {:?}", z, other)),
                 }
             }
         }
@@ -882,15 +934,12 @@ fn run_strings(c: &mut Ctx, special: &[(i64, u32)]) {
             c.count(if t.nanosecond() >= 1_000_000_000 { "time:leap-second" } else { "time:regular" });
             same(c, "NaiveTime", &t);
         } else {
+            c.count("time:leap-on-other-second");
             let a = via_json::<_, NaiveTime>(&t);
-            c.count(match &a {
-                Ok(Ok(x)) if *x == t => "observed:time-leap-on-other-second:kept",
-                Ok(Ok(_)) => "observed:time-leap-on-other-second:read-as-next-second",
-                Ok(Err(_)) => "observed:time-leap-on-other-second:unreadable",
-                Err(()) => "observed:time-leap-on-other-second:panic",
-            });
-            if a.is_err() {
-                c.fail("NaiveTime round trip panics", &format!("{:?}", t));
+            match &a {
+                Ok(Ok(x)) if *x == t => c.count("leap-on-other-second:time:kept"),
+                Ok(_) => c.fail(F_C, &format!("NaiveTime {:?} -> {:?}", t, a)),
+                Err(()) => c.fail("NaiveTime round trip panics", &format!("{:?}", t)),
             }
         }
     }
@@ -909,9 +958,12 @@ fn run_strings(c: &mut Ctx, special: &[(i64, u32)]) {
         if is_strict(&nd.time()) {
             same(c, "NaiveDateTime", &nd);
         } else {
-            c.count("observed:datetime-leap-on-other-second");
-            if via_json::<_, NaiveDateTime>(&nd).is_err() {
-                c.fail("NaiveDateTime round trip panics", &format!("{:?}", nd));
+            c.count("datetime:leap-on-other-second");
+            let a = via_json::<_, NaiveDateTime>(&nd);
+            match &a {
+                Ok(Ok(x)) if *x == nd => c.count("leap-on-other-second:datetime:kept"),
+                Ok(_) => c.fail(F_C, &format!("NaiveDateTime {:?} -> {:?}", nd, a)),
+                Err(()) => c.fail("NaiveDateTime round trip panics", &format!("{:?}", nd)),
             }
         }
     }
